@@ -9,6 +9,7 @@ import (
 	"fmt"
 	"go/ast"
 	"go/constant"
+	"go/token"
 	"go/types"
 	"sort"
 
@@ -27,21 +28,69 @@ func laCLI(c *Ctx, rule string) {
 	// string flags: package-level vars initialised by flag.String(name, default, usage)
 	type flagInfo struct{ name, def string }
 	flags := map[types.Object]flagInfo{}
+	// the object a flag's value lives in: the variable `x = flag.String(…)` (used as *x), or the variable / struct field
+	// handed to flag.StringVar(&target, …) (used as target)
+	objOf := func(e ast.Expr) types.Object {
+		switch x := e.(type) {
+		case *ast.Ident:
+			if o := p.TypesInfo.Uses[x]; o != nil {
+				return o
+			}
+			return p.TypesInfo.Defs[x]
+		case *ast.SelectorExpr:
+			return p.TypesInfo.Uses[x.Sel]
+		}
+		return nil
+	}
+	strConst := func(e ast.Expr) (string, bool) {
+		v := p.TypesInfo.Types[e].Value
+		if v == nil || v.Kind() != constant.String {
+			return "", false
+		}
+		return constant.StringVal(v), true
+	}
 	for _, f := range p.Syntax {
 		ast.Inspect(f, func(n ast.Node) bool {
-			vs, ok := n.(*ast.ValueSpec)
-			if !ok || len(vs.Names) != len(vs.Values) {
-				return true
-			}
-			for i, v := range vs.Values {
-				call, ok := v.(*ast.CallExpr)
-				if !ok || len(call.Args) < 2 {
-					continue
+			switch x := n.(type) {
+			case *ast.ValueSpec:
+				if len(x.Names) != len(x.Values) {
+					return true
 				}
-				if fn, ok := typeutilCallee(p.TypesInfo, call).(*types.Func); ok && fn.Pkg() != nil && fn.Pkg().Path() == "flag" && fn.Name() == "String" {
-					nm, df := p.TypesInfo.Types[call.Args[0]].Value, p.TypesInfo.Types[call.Args[1]].Value
-					if nm != nil && df != nil && nm.Kind() == constant.String && df.Kind() == constant.String {
-						flags[p.TypesInfo.Defs[vs.Names[i]]] = flagInfo{constant.StringVal(nm), constant.StringVal(df)}
+				for i, v := range x.Values {
+					call, ok := v.(*ast.CallExpr)
+					if !ok || len(call.Args) < 2 {
+						continue
+					}
+					if fn, ok := typeutilCallee(p.TypesInfo, call).(*types.Func); ok && fn.Pkg() != nil && fn.Pkg().Path() == "flag" && fn.Name() == "String" {
+						nm, ok1 := strConst(call.Args[0])
+						df, ok2 := strConst(call.Args[1])
+						if ok1 && ok2 {
+							flags[p.TypesInfo.Defs[x.Names[i]]] = flagInfo{nm, df}
+						}
+					}
+				}
+			case *ast.AssignStmt:
+				for i, v := range x.Rhs {
+					call, ok := v.(*ast.CallExpr)
+					if !ok || len(call.Args) < 2 || i >= len(x.Lhs) {
+						continue
+					}
+					if fn, ok := typeutilCallee(p.TypesInfo, call).(*types.Func); ok && fn.Pkg() != nil && fn.Pkg().Path() == "flag" && fn.Name() == "String" {
+						nm, ok1 := strConst(call.Args[0])
+						df, ok2 := strConst(call.Args[1])
+						if o := objOf(x.Lhs[i]); ok1 && ok2 && o != nil {
+							flags[o] = flagInfo{nm, df}
+						}
+					}
+				}
+			case *ast.CallExpr:
+				if fn, ok := typeutilCallee(p.TypesInfo, x).(*types.Func); ok && fn.Pkg() != nil && fn.Pkg().Path() == "flag" && fn.Name() == "StringVar" && len(x.Args) >= 3 {
+					if ue, ok := x.Args[0].(*ast.UnaryExpr); ok && ue.Op == token.AND {
+						nm, ok1 := strConst(x.Args[1])
+						df, ok2 := strConst(x.Args[2])
+						if o := objOf(ue.X); ok1 && ok2 && o != nil {
+							flags[o] = flagInfo{nm, df}
+						}
 					}
 				}
 			}
@@ -61,15 +110,14 @@ func laCLI(c *Ctx, rule string) {
 			}
 			byDef := map[string][]string{}
 			for _, a := range call.Args {
-				st, ok := a.(*ast.StarExpr)
-				if !ok {
+				if st, ok := a.(*ast.StarExpr); ok {
+					a = st.X
+				}
+				o := objOf(a)
+				if o == nil {
 					continue
 				}
-				id, ok := st.X.(*ast.Ident)
-				if !ok {
-					continue
-				}
-				if fi, ok := flags[p.TypesInfo.Uses[id]]; ok && fi.def != "" {
+				if fi, ok := flags[o]; ok && fi.def != "" {
 					byDef[fi.def] = append(byDef[fi.def], "-"+fi.name)
 				}
 			}
